@@ -55,7 +55,9 @@ inductive SOp | lmul | rmul | div | add | radd | sub | rsub
 inductive VOp | lmul | rmul | add | radd | sub | rsub
   deriving DecidableEq, Repr
 
-/-- Surface expressions. `bin .mul` is `A * B` (also `A @ B`), `bin .pprod` / `bin .quot`
+/-- Surface expressions. In `sc o a s real` the flag `real` is `isinstance(s, numbers.Real)`
+(a Python `int`/`float`, as opposed to a `complex` object): the only thing besides its value
+the dispatch looks at.  `bin .mul` is `A * B` (also `A @ B`), `bin .pprod` / `bin .quot`
 are the explicit constructor calls `OperatorPointwiseProduct/FunctionalProduct(A, B)` and
 `FunctionalQuotient(A, B)` (no overload reaches them). -/
 inductive Expr (K : Type)
@@ -63,7 +65,7 @@ inductive Expr (K : Type)
   | neg (a : Expr K)
   | pow (a : Expr K) (n : Nat)
   | bin (o : BOp) (a b : Expr K)
-  | sc (o : SOp) (a : Expr K) (s : K)
+  | sc (o : SOp) (a : Expr K) (s : K) (real : Bool)
   | vc (o : VOp) (a : Expr K) (v : VecLit K)
 
 /-- Tree of expression-class instances. The `Bool` is "the Functional subclass"
@@ -111,7 +113,7 @@ def den (env : Nat → Vec K → Vec K) : Expr K → Vec K → Vec K
     | .mul => fun x => den env a (den env b x)
     | .pprod => fun x j => den env a x j * den env b x j
     | .quot => fun x j => den env a x j / den env b x j
-  | .sc o a s =>
+  | .sc o a s _ =>
     match o with
     | .lmul => fun x j => s * den env a x j
     | .rmul => fun x => den env a (fun j => s * x j)
@@ -294,17 +296,19 @@ def rscalParts (a : Impl K) : Option (Impl K × K) :=
   | .rscal _ a' t => some (a', t)
   | _ => none
 
-/-- `a * s` (`__mul__` with a number). -/
-def opMulScal (env : Nat → Vec K → Vec K) (a : Impl K) (s : K) : Impl K :=
+/-- `a * s` (`__mul__` with a number; `real` = `isinstance(s, Real)`).  The rewriting
+`A * s ↦ s * A` of flagged-linear operators is applied to REAL scalars only (repair of
+C04-F2: `is_linear` does not tell real-linear from complex-linear operators). -/
+def opMulScal (env : Nat → Vec K → Vec K) (a : Impl K) (s : K) (real : Bool) : Impl K :=
   if a.isFn then
     -- Functional.__mul__
     if s = 0 then .const a.dom (run env a (fun _ => 0))
-    else if a.lin then mkLScal true a s
+    else if a.lin && real then mkLScal true a s
     else mkRScal true a s
   else
     match rscalParts a with
     | some (a', t) => mkRScal false a' (t * s)       -- OperatorRightScalarMult.__mul__
-    | none => if a.lin then opRMulScal s a else mkRScal false a s   -- Operator.__mul__
+    | none => if a.lin && real then opRMulScal s a else mkRScal false a s   -- Operator.__mul__
 
 /-- `a * b`, both operators (`FunctionalComp` iff the left one is a functional). -/
 def opMul (a b : Impl K) : Option (Impl K) :=
@@ -365,13 +369,13 @@ def build (env : Nat → Vec K → Vec K) : Expr K → Option (Impl K)
       | .pprod => mkPProd a' b'
       | .quot => mkQuot a' b'
     | _, _ => none
-  | .sc o a s =>
+  | .sc o a s re =>
     match build env a with
     | some a' =>
       match o with
       | .lmul => some (opRMulScal s a')
-      | .rmul => some (opMulScal env a' s)
-      | .div => if s = 0 then none else some (opMulScal env a' (1 / s))  -- self * (1.0 / other)
+      | .rmul => some (opMulScal env a' s re)
+      | .div => if s = 0 then none else some (opMulScal env a' (1 / s) re)  -- self * (1.0 / other)
       | .add => opAddScal a' s
       | .radd => opAddScal a' s
       | .sub => opAddScal a' (-1 * s)                                   -- self + (-1) * other
@@ -409,7 +413,7 @@ def typeOf : Expr K → Option Ty
       | .pprod => if s.dom = t.dom ∧ s.ran = t.ran then some ⟨s.dom, s.ran, s.fn && t.fn⟩ else none
       | .quot => if s.fn ∧ t.fn ∧ s.dom = t.dom then some ⟨s.dom, .fld, true⟩ else none
     | _, _ => none
-  | .sc o a s =>
+  | .sc o a s _ =>
     match typeOf a with
     | some t =>
       match o with
@@ -443,7 +447,7 @@ def linOf : Expr K → Bool
     | .sub => linOf a && linOf b
     | .mul => linOf a && linOf b
     | _ => false
-  | .sc o a _ =>
+  | .sc o a _ _ =>
     match o with
     | .lmul => linOf a
     | .rmul => linOf a
